@@ -21,6 +21,8 @@ FAMILIES = [
     # probe list ends with the value `ans` had before, so that the list can be evaluated repeatedly with the same outcome
     ('ans', '100\n"text"\nx + 1', 'ans; _ + 1; x; 5', PRELUDE + '5\n', 'x'),
     # a module import before the failing statement: the module must be importable again afterwards, with the same effect
+    # an import of a module that does not exist: the same import must fail the same way afterwards
+    ('nomod', 'use nonexistent::thing\nlet q = 7', 'x; use nonexistent::thing; h(2)'),
     ('use', 'use core::dimensions\nlet q = 7', 'q; x; fn p(l: Length) = l', 'use core::scalar\nlet x = 3\nfn h(a: Scalar) -> Scalar = a + 1\n', 'q'),
 ]
 
@@ -38,6 +40,8 @@ def plan(tier, rnd, units):
     cases = []
     for f in FAMILIES:
         fam, prefix, probes = f[:3]
+        if fam == 'nomod' and tier == 'quick':
+            continue        # added at the end of the session and not yet exercised: thorough tier only for now
         base = {1: f[3] if len(f) > 3 else PRELUDE, 2: prefix, 3: probes, 4: f[4] if len(f) > 4 else 'q'}
         n = (2 if tier == 'quick' else 4) if fam == 'var' else (1 if tier == 'quick' else 3)
         for L in range(1, n + 1):
